@@ -15,6 +15,7 @@ import (
 	"verif.local/harness/hx"
 	"verif.local/simrt"
 	simnet "verif.local/simrt/simnet"
+	simtime "verif.local/simrt/simtime"
 )
 
 func init() { ulog.SetLogLevel(zapcore.FatalLevel + 1) }
@@ -30,7 +31,9 @@ type connPlan struct {
 	End         string  `json:"end"`       // local-close | peer-close | reset | silent
 	EndAfter    int     `json:"end_after"` // yields before the end event
 	ServerSends []int   `json:"server_sends"`
-	SecondEnd   string  `json:"second_end"` // "" or another terminating event racing with the first
+	SecondEnd   string  `json:"second_end"`  // "" or another terminating event racing with the first
+	IdleMs      int     `json:"idle_ms"`     // the server-side actor lets this much simulated time pass before its Sends (0 = none)
+	CloseFails  bool    `json:"close_fails"` // the server side's conn.Close() returns an error (the connection is closed all the same)
 }
 
 type C16Scenario struct {
@@ -66,6 +69,8 @@ func drawC16(rt *rapid.T) interface{} {
 		for j := 0; j < ns; j++ {
 			p.ServerSends = append(p.ServerSends, rapid.SampledFrom([]int{1, 3, 20, 200}).Draw(rt, "slen"))
 		}
+		p.IdleMs = rapid.SampledFrom([]int{0, 0, 0, 10, 100, 10000, 30000}).Draw(rt, "idle")
+		p.CloseFails = rapid.IntRange(0, 5).Draw(rt, "closefails") == 0
 		if rapid.IntRange(0, 4).Draw(rt, "second") == 0 {
 			p.SecondEnd = rapid.SampledFrom([]string{"local-close", "peer-close", "reset"}).Draw(rt, "end2")
 		}
@@ -87,17 +92,17 @@ func chunk(src, seq byte, n int) []byte {
 }
 
 type connState struct {
-	plan      connPlan
-	client    *simnet.SimConn
-	sess      *stcp.Session
-	exits     int
-	started   bool
-	accepted  [2]int // per source: chunks whose Send returned nil
-	recv      []byte
-	eof       bool
-	clientErr error
+	plan         connPlan
+	client       *simnet.SimConn
+	sess         *stcp.Session
+	exits        int
+	started      bool
+	accepted     [2]int // per source: chunks whose Send returned nil
+	recv         []byte
+	eof          bool
+	clientErr    error
 	handlerEnded string
-	faulty    bool // something other than the single local close may have cut the stream
+	faulty       bool // something other than the single local close may have cut the stream
 }
 
 type handler struct {
@@ -203,7 +208,12 @@ func runC16(t *testing.T, sci interface{}, keepLog bool) *hx.Outcome {
 			h.conns[name] = cs
 			states = append(states, cs)
 			cs.client = ln.Dial(name)
-			cs.faulty = plan.End != "local-close" || plan.SecondEnd != "" || !plan.ClientReads
+			if plan.CloseFails {
+				cs.client.Peer().CloseErr = errors.New("simnet: failed to send close notify (connection closed anyway)")
+			}
+			// an idle period longer than the read timeout ends the session by itself: then the stream may be cut short
+			idleEnds := plan.IdleMs >= sc.ReadTO
+			cs.faulty = plan.End != "local-close" || plan.SecondEnd != "" || !plan.ClientReads || idleEnds
 			s.Logf("dial %s", name)
 			endEvent := func(kind string) {
 				switch kind {
@@ -260,6 +270,10 @@ func runC16(t *testing.T, sci interface{}, keepLog bool) *hx.Outcome {
 				s.Block(me, func() bool { return cs.sess != nil || cs.client.PeerClosed() || cs.client.Closed() }, "harness:session")
 				if cs.sess == nil {
 					return
+				}
+				if plan.IdleMs > 0 {
+					simtime.Sleep(time.Duration(plan.IdleMs) * time.Millisecond)
+					s.Count("idle-before-send")
 				}
 				for _, n := range plan.ServerSends {
 					seq := byte(cs.accepted[1])
